@@ -340,6 +340,7 @@ def _sem_seq(node, env, prefer):
     elif op == "proj":
         r = relmodel.project(t, node[2])
         r.det, r.dropped, r.sliced = t.det, t.dropped or (set(node[2]) != set(t.cols)), t.sliced
+        r.okeys = t.okeys
         return r
     elif op == "sel":
         r = relmodel.select(t, lambda v: exprsem.z3_of_ast(node[2], v, bind))
@@ -350,10 +351,15 @@ def _sem_seq(node, env, prefer):
     elif op == "sort":
         r = relmodel.sort(t, [((lambda v, e=e: exprsem.z3_of_ast(e, v, bind)), asc) for e, asc in node[2]])
         if sqlm and node[2]:
-            cov = _covers_all(node[2], t.cols)
-            r.det = cov or (t.ordered and t.det and not t.dropped and not t.sliced)
+            # sorts compose stably (the later terms first, then the order that was there): the composed order is total as soon
+            # as the bare columns among all those terms cover the relation's columns
+            keep = t.ordered and not t.dropped and not t.sliced
+            acc = frozenset(e[1] for e, _ in node[2] if e[0] == "ref") | (t.okeys if keep else frozenset())
+            cov = set(t.cols) <= acc
+            r.det = cov or (keep and t.det)
             r.dropped = False if cov else t.dropped
             r.sliced = False if cov else t.sliced
+            r.okeys = acc
             return r
         if sqlm and not node[2]:
             r = t
@@ -372,10 +378,12 @@ def _sem_seq(node, env, prefer):
         stop = None if node[3] is None else exprsem.zval(node[3], bind)
         r = relmodel.slice_(t, start, stop)
         r.det, r.dropped, r.sliced = t.det, t.dropped, True
+        r.okeys = t.okeys
         return r
     else:
         raise TypeError(f"bad program node {node!r}")
     r.det, r.dropped, r.sliced = t.det, t.dropped, t.sliced
+    r.okeys = t.okeys
     return r
 
 
@@ -430,6 +438,11 @@ def sem_tree(rel, env, prefer="r"):
             return relmodel.chain(a, b)
         if isinstance(o, Join):
             common = [t.qualified_name for t in o.common_columns]
+            if not (set(common) <= a.cols and set(common) <= b.cols):
+                raise IllFormed(f"join node on {sorted(common)} over operands with columns {sorted(a.cols)} / {sorted(b.cols)}")
+            need = {t.qualified_name for t in o.predicate.columns_required}
+            if not need <= (a.cols | b.cols):
+                raise IllFormed(f"join predicate requires {sorted(need - (a.cols | b.cols))}")
             pred = lambda v: exprsem.z3_of_lib(o.predicate, v)  # noqa: E731 - never the library's own folding (as_trivial)
             return relmodel.join(a, b, common, pred, prefer)
         raise TypeError(f"unexpected binary operation node {o!r}")
@@ -441,6 +454,37 @@ def sem_tree(rel, env, prefer="r"):
 
 class IllFormed(Exception):
     pass
+
+
+def tree_problem(rel, seen=None):
+    """Node-local well-formedness of a tree the library returned (concrete twin of the IllFormed checks in sem_tree):
+    -> None or a description."""
+    from lsst.daf.relation import BinaryOperationRelation, Calculation, Join, MarkerRelation, UnaryOperationRelation
+
+    seen = set() if seen is None else seen
+    if id(rel) in seen:
+        return None
+    seen.add(id(rel))
+    if isinstance(rel, MarkerRelation):
+        return tree_problem(rel.target, seen)
+    if isinstance(rel, BinaryOperationRelation):
+        o = rel.operation
+        if isinstance(o, Join):
+            cc = set(o.common_columns)
+            if not (cc <= set(rel.lhs.columns) and cc <= set(rel.rhs.columns)):
+                return f"join node on {sorted(map(str, cc))} over operands with columns {sorted(map(str, rel.lhs.columns))} / {sorted(map(str, rel.rhs.columns))}"
+            if not set(o.predicate.columns_required) <= (set(rel.lhs.columns) | set(rel.rhs.columns)):
+                return f"join predicate {o.predicate} requires columns its operands do not have"
+        return tree_problem(rel.lhs, seen) or tree_problem(rel.rhs, seen)
+    if isinstance(rel, UnaryOperationRelation):
+        o = rel.operation
+        need = set(o.columns_required)
+        if not need <= set(rel.target.columns):
+            return f"{o} requires {sorted(map(str, need - set(rel.target.columns)))} not in its target"
+        if isinstance(o, Calculation) and o.tag in rel.target.columns:
+            return f"{o}: tag already present in its target"
+        return tree_problem(rel.target, seen)
+    return None
 
 
 def apply_lib_op(t, o, strict=False, count_mode=False):
